@@ -8,6 +8,18 @@ import TinsModel.Wire.Chain.ViewAll
     * satisfies the side conditions its per-class `*_reparse` theorem needs (`Side`), and
     * is followed by something its next-protocol tag can name under the dispatch the parser uses (`LinkAll`).
 
+  The links (`LinkAll`), class by class:
+    * link-layer classes among themselves: `L2.Link` (Wire/L2/ThChainStep.lean), unchanged;
+    * EthernetII / Dot1Q / SNAP / SLL (EtherType derived from the inner class: 0x0800 / 0x86dd, `eth_tagFor_net`,
+      `headTag_net`) and Loopback (protocol family derived) in front of IP / IPv6; MPLS in front of IP / IPv6 when its
+      bottom-of-stack bit is set and the datagram's version field is 4 / 6 (the parser dispatches on the first nibble);
+    * IP: followed by nothing, by a class the protocol dispatch names (`ProtoTier`: IP-in-IP, IPv6, TCP, UDP, ICMP, ICMPv6,
+      IPSecAH, IPSecESP — the protocol number is derived from the class and maps back: `protoTier_roundtrip`) when it is
+      not a fragment, or by a RawPDU when it is a fragment or its stored protocol is one libtins does not dispatch on;
+    * IPSecAH: like IP on its next-header octet;  IPv6: like IP on the last next-header octet (derived for a class, stored
+      `next_header_` for a RawPDU — which must not be an extension-header type — and a RawPDU behind a fragment header);
+    * IPSecESP, UDP, TCP, ICMP, ICMPv6: followed by a RawPDU or nothing.
+
   Covered classes: the link-layer family (EthernetII, Dot3, LLC, SNAP, Dot1Q, MPLS, PPPoE, SLL, Loopback), IP, IPSecAH,
   IPSecESP, IPv6 (with extension headers), UDP, TCP (with options), ICMP, ICMPv6 (both without an RFC 4884 extension
   structure), RawPDU.  Not covered (the predicate is `False` for them): PPI / PKTAP (not serializable), the App family (ARP,
@@ -83,21 +95,30 @@ def LinkAll (x : AnyObj) (r : List AnyObj) : Prop :=
      | _ => False)
   | _ => False
 
-/-- the side conditions of the per-class `*_reparse` theorems -/
+/-- the side conditions of the per-class `*_reparse` theorems:
+    * IP: wire-normal options (what the parser produces: no END among them, advertised = real length); the datagram fits
+      the 16-bit total length;  IPSecAH: an ICV of whole 32-bit words the length octet can announce;
+    * IPv6: extension headers as a parser stores them (length field = data size, aligned to 8 octets, at most 2048
+      octets: `fitsLenOctet`); the payload fits the 16-bit payload length;
+    * TCP: canonical options (`Tcp.Canon`);
+    * ICMP / ICMPv6: type and code are bytes; **no RFC 4884 extension structure** (`ext = ExtS.default`: the structure's
+      version / reserved fields are not on the wire without objects); for the error-message types the quote is
+      `ghostFree` (the re-parser finds no structure where the derived length points);  ICMPv6 additionally: an MLDv1 query
+      has no MLDv2 members, and the body / option list are what the wire format can express (`BodyWire`, `OptsWire`). -/
 def Side (x : AnyObj) (r : List AnyObj) : Prop :=
   match x with
   | .l2 _ => True
-  | .ip (.ip o) => o.Normal ∧ o.hdr + sizeOfStack r < 65536            -- wire-normal options; `tot_len` is 16 bits
-  | .ip (.ah a) => a.Repr                                             -- ICV of whole words the length octet can announce
+  | .ip (.ip o) => o.Normal ∧ o.hdr + sizeOfStack r < 65536
+  | .ip (.ah a) => a.Repr
   | .ip (.esp _) => True
   | .ip6 (.ip6 p) => (∀ h ∈ p.headers, Ip6.Ipv6.HdrParsed h) ∧ p.hdr + sizeOfStack r - 40 < 65536
   | .tr (.udp _) => True
   | .tr (.tcp t) => ∀ o ∈ t.opts, Transport.Tcp.Canon o
-  | .icmp (.icmp p) => p.Small ∧ p.ext = Icmp.ExtS.default ∧       -- no extension structure (its version / reserved
+  | .icmp (.icmp p) => p.Small ∧ p.ext = Icmp.ExtS.default ∧
       (Icmp.Icmp4.extAllowed p.type = true →
-        Icmp.ghostFree (p.lengthFor (Icmp.Icmp4.innerOf (sizeOfStack r)) % 256 * 4) (tailBytes r))   -- fields are not on the wire)
+        Icmp.ghostFree (p.lengthFor (Icmp.Icmp4.innerOf (sizeOfStack r)) % 256 * 4) (tailBytes r))
   | .icmp (.icmp6 p) => p.Small ∧ p.ext = Icmp.ExtS.default ∧
-      (p.type = 130 → p.useMldv2 = false → p.mlqm = Icmp.Icmp6.zeros 2 ∧ p.sources = []) ∧   -- MLDv1 query: no MLDv2 members
+      (p.type = 130 → p.useMldv2 = false → p.mlqm = Icmp.Icmp6.zeros 2 ∧ p.sources = []) ∧
       p.BodyWire (p.unBytes (Icmp.Icmp4.innerOf (sizeOfStack r))) (!(Icmp.Icmp6.optsBytes p.opts ++ tailBytes r).isEmpty) ∧
       p.OptsWire (tailBytes r) ∧
       (Icmp.Icmp6.extAllowed p.type = true →
